@@ -4,6 +4,7 @@ import (
 	"fmt"
 	"math"
 	"math/big"
+	"strings"
 
 	spg "go.1password.io/spg"
 
@@ -90,7 +91,45 @@ func c13Recipe(r *gen.R) spg.CharRecipe {
 	default:
 		rec = anyCharRecipe(r, 40)
 	}
+	if r.Chance(1, 12) { // long passwords: counts beyond float64 range
+		rec.Length = []int{100, 172, 173, 200, 400, 1000}[r.Intn(6)]
+	}
 	return rec
+}
+
+// c13WordLists: recipes with a non-empty list and a positive length can always be honoured, whatever the
+// size of the words and separators.
+func c13WordLists(c *Ctx) {
+	for k := 0; k < 6; k++ {
+		w := genWLCase(c.R, wlOpts{minWords: 1, maxWords: 5, maxLen: 6, twins: true, uncap: true, hostileWords: true, noReqSep: true})
+		switch k % 3 {
+		case 0:
+			w.Words = append(w.Words, strings.Repeat("long", 70), strings.Repeat("é", 300))
+		case 1:
+			w.SepKind, w.SepChar = "char", strings.Repeat("-=", 150)
+		}
+		b, err := w.Build()
+		if err != nil {
+			continue
+		}
+		for run := 0; run < 4; run++ {
+			s := make([]uint32, 6*w.Length+8)
+			for i := range s {
+				s[i] = c.R.U32()
+				if run == 0 {
+					s[i] = tape.Last
+				}
+			}
+			g := runGen(b.fresh(w).Rec, &tape.Tape{Script: s, AutoExtend: true})
+			c.Exec(1)
+			c.Count("wordlist_recipes_that_must_succeed", 1)
+			if g.Pw == nil {
+				c.Violate("honourable-wordlist-recipe-fails", fmt.Sprintf("recipe %s has a non-empty list and positive length but Generate() gave err=%v panic=%v", w.String(), g.Err, g.Panic), map[string]interface{}{"recipe": w.String()})
+				return
+			}
+		}
+		c.Distinct("nontrivial", "wl|"+w.String())
+	}
 }
 
 func c13Case(c *Ctx) {
@@ -99,6 +138,9 @@ func c13Case(c *Ctx) {
 		return
 	}
 	_, per := c13Counts(c.Tier)
+	if c.Case%8 == 1 {
+		c13WordLists(c)
+	}
 	for k := 0; k < per; k++ {
 		rec := c13Recipe(c.R)
 		kn := c13Knobs(c.R)
